@@ -131,8 +131,8 @@ def check_window(ctx: Ctx) -> None:
         cfg = cfg_of(f)
         en = [s for s in stmts_of(f) if isinstance(s, ast.Assign) and isinstance(s.value, ast.Call) and last_attr(s.value).endswith("__enable_integer_variables_normalization")]
         rs = [c for c in walk_body(f) if isinstance(c, ast.Call) and last_attr(c).endswith("__reset_integer_variables_normalization")]
-        ctx.ob("14.2-window", con, len(en) == 1 and len(rs) == 1, "the mapping of the unit samples must be bracketed by the enable and the reset of the integer-variable normalisation (one of them is missing)", node=(en or rs or [f])[0], stmt="enable and reset present")
-        if len(en) != 1 or len(rs) != 1:
+        ctx.ob("14.2-window", con, len(en) == 1 and len(rs) >= 1, "the mapping of the unit samples must be bracketed by the enable and the reset of the integer-variable normalisation (one of them is missing)", node=(en or rs or [f])[0], stmt="enable and reset present")
+        if len(en) != 1 or not rs:
             continue
         flag = dotted(en[0].targets[0])
         if m == "_pre_run":
@@ -145,17 +145,17 @@ def check_window(ctx: Ctx) -> None:
             ctx.need(len(unts) == 1, "compute_doe: untransform_vect call not found")
             un = cfg.node_of(unts[0])
             unt = unts[0]
-        e_n, r_n = cfg.node_of(en[0]), cfg.node_of(rs[0])
-        ok = cfg.reachable(e_n, un) and not cfg.reachable(un, e_n) and cfg.reachable(un, r_n) and not cfg.reachable(r_n, un)
+        e_n = cfg.node_of(en[0])
+        r_nodes = {cfg.node_of(rules.enclosing_stmt(f, r_)) for r_ in rs}
+        r_n = min(r_nodes)
+        ok = cfg.reachable(e_n, un) and not cfg.reachable(un, e_n) and any(cfg.reachable(un, x_) for x_ in r_nodes) and not any(cfg.path(x_, un, avoid={e_n}) is not None for x_ in r_nodes)
         ctx.ob("14.2-window", con, ok, "the unit samples must be mapped to the design space while integer variables are normalised: enable ... untransform ... reset, in this order (outside the window integer components keep their unit value and are then rounded to 0 or 1)", node=unt)
-        ok = cfg.must_pass(un, {r_n})
-        if m == "compute_doe":
-            # the window is only opened for DesignSpace instances; the reset must be conditioned the same way
-            ce = sorted(norm_stmt(cfg.ast[t].test) for t, v in branch_conditions(cfg, e_n) if v and cfg.kind[t] == "test" and "isinstance" in norm_stmt(cfg.ast[t].test))
-            cr = sorted(norm_stmt(cfg.ast[t].test) for t, v in branch_conditions(cfg, r_n) if v and cfg.kind[t] == "test")
-            ok = cr == ce and cfg.reachable(un, r_n)
+        # every normal path from the enable to the end of the method passes a reset
+        from gv.props.shared import contradicted_branches
+
+        ok = cfg.escape_path(e_n, r_nodes | contradicted_branches(cfg, e_n)) is None
         ctx.ob("14.2-window", con, ok, "the normalisation of integer variables must be restored on every normal path after the mapping", node=rs[0], stmt="reset post-dominates the mapping")
-        ok = len(rs[0].args) == 2 and dotted(rs[0].args[1]) == flag and dotted(rs[0].args[0]) == dotted(en[0].value.args[0])
+        ok = all(len(r_.args) == 2 and dotted(r_.args[1]) == flag and dotted(r_.args[0]) == dotted(en[0].value.args[0]) for r_ in rs)
         ctx.ob("14.2-window", con, ok, "the reset must receive the flag returned by the enable for the same design space (otherwise a space whose integers were already normalised is switched off)", node=rs[0], stmt="reset(design_space, <flag returned by enable>)")
         chk = [c for c in walk_body(f) if isinstance(c, ast.Call) and last_attr(c).endswith("__check_unnormalization_capability")]
         gen = rules.self_calls(f, "_generate_unit_samples")
